@@ -76,7 +76,31 @@ def equiv(c1, c2):
 
 
 def do_case(ctx, case):
-    """case = {"ind": plain individual, "S": [ints], "k": int, "new": [floats]}"""
+    """case = {"ind": plain individual, "S": [ints], "k": int, "new": [floats]}, or
+    {"kind": "twins", "members": [case, ...]}: several such cases evaluated consecutively in this one process"""
+    if case.get("kind") == "twins":
+        return do_twins_case(ctx, case)
+    return do_single_case(ctx, case)
+
+
+def do_twins_case(ctx, case):
+    """Hash-collision twins: individuals (or replacement vectors) identical except for values with equal hash
+    (-1.0 / -2.0 / the int -1; 0.0 / -0.0).  EVQEIndividual.__eq__ is hash equality, so anything keyed by the
+    individual confuses them.  Every member's views must still agree among themselves."""
+    ctx.tally(f"twins:{case.get('how', '?')}")
+    before = len(ctx.violations)
+    out = []
+    for m in case["members"]:
+        g = do_single_case(ctx, m)
+        if g is not None:
+            out.append(g)
+    for v in ctx.violations[before:]:
+        v["what"] = f"with hash-equal twin individuals evaluated consecutively in one process ({case.get('how')}): " + v["what"] + f" [member values {v['case']['ind']['values'][:8]}, new {v['case']['new'][:6]}]"
+        v["case"] = case
+    return out
+
+
+def do_single_case(ctx, case):
     ind, S, k, new = case["ind"], case["S"], case["k"], case["new"]
     n, L = ind["n"], len(ind["layers"])
     ctx.tally(f"qubits={'>=11' if n >= 11 else n}")
@@ -159,7 +183,12 @@ def gen_case(rng, n=None, L=None):
 
     def value():
         counter[0] += 1
-        return rng.choice([0.0, 0.5, 3.141592653589793]) if rng.random() < 0.1 else round(rng.uniform(-6.5, 6.5), 6) + counter[0] * 1e-3
+        r = rng.random()
+        if r < 0.1:
+            return rng.choice([0.0, 0.5, 3.141592653589793])
+        if r < 0.2:
+            return rng.choice([-1.0, -2.0])  # hash(-1.0) == hash(-2.0) in CPython
+        return round(rng.uniform(-6.5, 6.5), 6) + counter[0] * 1e-3
 
     values = [value() for l in layers for _ in range(evqe.layer_n_parameters(l))]
     ind = {"n": n, "layers": layers, "values": values}
@@ -175,10 +204,37 @@ def gen_case(rng, n=None, L=None):
     return {"ind": ind, "S": S, "k": k, "new": new}
 
 
+TWIN_VALUES = {"-1.0/-2.0": (-1.0, -2.0), "-2.0/-1.0": (-2.0, -1.0), "int -1/-2.0": (-1, -2.0), "-2.0/int -2/-1.0": (-2.0, -2, -1.0), "0.0/-0.0": (0.0, -0.0)}
+
+
+def gen_twins(rng, how, where):
+    """members identical except that the chosen positions hold the values of TWIN_VALUES[how], either in the
+    individual's parameter values (where='values') or in the replacement vector of one layer (where='new': the
+    scan of a layer angle over whole radians through change_layer_parameter_values)"""
+    while True:
+        base = gen_case(rng, n=rng.choice([1, 2, 2, 3]), L=rng.choice([1, 2, 3]))
+        L = len(base["ind"]["layers"])
+        if where == "values" and base["ind"]["values"]:
+            break
+        if where == "new" and base["new"]:
+            break
+    vec = base["ind"]["values"] if where == "values" else base["new"]
+    pos = sorted(rng.sample(range(len(vec)), rng.choice([1, 1, 2]) if len(vec) > 1 else 1))
+    members = []
+    for tv in TWIN_VALUES[how]:
+        m = json.loads(json.dumps(base))
+        tgt = m["ind"]["values"] if where == "values" else m["new"]
+        for q in pos:
+            tgt[q] = tv
+        members.append(m)
+    return {"kind": "twins", "how": f"{how} in {where}", "members": members}
+
+
 def run(ctx):
     translate.check_link(ctx, "C04")  # regenerate Gallina from /repo's current source; link lemmas coq/link/C04Link.v
     ctx.rule = ("random valid individuals, 1-13 qubits x 1-14 layers (both >= 11 occur: 'layer10' and 'q10' string-order effects), 12% parameterless layers, pairwise different values; "
                 "S = none / all / random subset incl. negative ids; k any integer in [-L, 2L); thorough: also every layer count 1-25 at 2 qubits; "
+                "values include -1.0 and -2.0 (equal hash); hash-collision twins: 2-3 individuals (or replacement vectors of one layer) identical except for -1.0 / -2.0 / int -1 / int -2 or 0.0 / -0.0, all views of each evaluated consecutively in one process; "
                 "distinct = distinct (individual, S, k, new); non-trivial = individual has at least one parameter")
     cases = []
     cdir = core.ROOT / "corpus" / "C04"
@@ -189,6 +245,10 @@ def run(ctx):
     cases.append(gen_case(ctx.rng, n=12, L=2))
     for _ in range(ctx.n(110, 1500)):
         cases.append(gen_case(ctx.rng))
+    for how in TWIN_VALUES:
+        for where in ("values", "new"):
+            for _ in range(ctx.n(1, 6)):
+                cases.append(gen_twins(ctx.rng, how, where))
     if not ctx.quick:
         for L in range(1, 26):
             for _ in range(3):
@@ -197,11 +257,11 @@ def run(ctx):
     glits, kept = [], []
     for c in cases:
         g = do_case(ctx, c)
-        ctx.case(c, nontrivial=len(c["ind"]["values"]) > 0, sample=None)
-        if g is not None:
-            glits.append(g)
+        ctx.case(c, nontrivial=c.get("kind") == "twins" or len(c["ind"]["values"]) > 0, sample=None)
+        for gg in ([] if g is None else g if isinstance(g, list) else [g]):
+            glits.append(gg)
             kept.append(c)
-    small = [c for c in cases if len(c["ind"]["layers"]) <= 2 and c["ind"]["n"] <= 2][:2]
+    small = [c for c in cases if c.get("kind") != "twins" and len(c["ind"]["layers"]) <= 2 and c["ind"]["n"] <= 2][:2]
     for c in small:
         ctx.samples.append(c)
     bad = core.model_mismatches("C04", IMPORTS, "check_case", glits, chunk=8)
@@ -224,7 +284,9 @@ def replay(ctx, payload):
     for v in ctx.violations:
         print("oracle:", v["what"])
     print("impl-vs-property:", "FAILS" if ctx.violations else "ok")
-    if g:
-        bad = core.model_mismatches("C04_replay", IMPORTS, "check_case", [g])
-        print("model-vs-impl:", "DIFFER" if bad else "agree")
-        print("checks (repaired naming, legacy naming):", core.model_show("C04", IMPORTS, f"show_case ({g})"))
+    gs = [] if g is None else g if isinstance(g, list) else [g]
+    if gs:
+        bad = core.model_mismatches("C04_replay", IMPORTS, "check_case", gs)
+        print("model-vs-impl:", f"DIFFER (members {bad})" if bad else "agree")
+        for gg in gs:
+            print("checks (repaired naming, legacy naming):", core.model_show("C04", IMPORTS, f"show_case ({gg})"))
